@@ -525,7 +525,11 @@ def rule_r3(ck, prog, f, g, rd, parent_vid, rule='C05.R3'):
     else:
         ok = False
         why.append('trace id argument is not a local')
-    ck.verdict(ok, rule, f, 'trace-id-source', sc.n, 'parent\'s trace id on the valid edge, GenerateTraceId otherwise' if ok else '; '.join(why))
+    if not ok and tn['k'] == 'ref' and not kinds:
+        # neither source is visible in this function (the id arrives through a helper's result, a pair, a struct): not decided
+        ck.inconclusive(rule, f, 'trace-id-source', sc.n, 'the trace id of the new context is produced outside the expressions of StartSpan (helper result / aggregate): its two sources are not visible to this rule')
+    else:
+        ck.verdict(ok, rule, f, 'trace-id-source', sc.n, 'parent\'s trace id on the valid edge, GenerateTraceId otherwise' if ok else '; '.join(why))
     # span id
     srcs = origins(g, rd, f, args[1], sc.ctx)
     ok = bool(srcs) and all(sn['k'] == 'call' and strip_targs(sn.get('c', '')).endswith('GenerateSpanId') for (_f, sn, _c) in srcs)
